@@ -153,6 +153,8 @@ def body7 : Body := fun c e t =>
    | 2 => { exit := 0, divert := some (.exit (some 4)) }
    | 3 => { exit := 1 }
    | 4 => { exit := e, divert := some (.interrupt (some 2)) }
+   | 5 => { exit := 1, divert := some (.ret none) }   -- `probe c; false; return`
+   | 6 => { exit := 1, divert := some (.ret none) }   -- `probe c; ! :; return`
    | _ => { exit := 7 }, t)
 
 def showDivert : Option Divert → String
@@ -390,6 +392,8 @@ def scriptBody : Body := fun c e t =>
   | 1 => ({ exit := 0, divert := some (.ret (some 3)) }, t)
   | 2 => ({ exit := 0, divert := some (.exit (some 4)) }, t)
   | 3 => ({ exit := 1 }, t)
+  | 6 => ({ exit := 1, divert := some (.ret none) }, t)   -- `probe T; false; return`
+  | 7 => ({ exit := 1, divert := some (.ret none) }, t)   -- `probe T; ! :; return`
   | 4 =>
     let sys : Sys := { disp := fun _ => .catch, blocked := fun _ => true }
     ({ exit := 0 }, (setAction { sys := sys, traps := t } (tag % 500 - 200) (.command (tag + 500)) 0 false).1.traps)
@@ -427,6 +431,7 @@ end
 def parseKind (k : String) : Option Nat :=
   match k with
   | "P" => some 0 | "R" => some 1 | "E" => some 2 | "F" => some 3 | "N" => some 4 | "I" => some 5
+  | "Q" => some 6 | "B" => some 7
   | _ => none
 
 def parseSK (w : String) : Option (Nat × Nat) :=
